@@ -455,6 +455,27 @@ def edit_histories(sh, seed, thorough):
                 t = prg.sample_tree(t)
 
 
+def eviction_part(sh, seed, ntrees):
+    """Enough different sibling pairs in one process to push the pairwise-convolution memo table (1024 entries) and
+    the children-convolution table through many LRU evictions: random forests on 30 data points built bottom-up, every
+    memoised call shadow-compared."""
+    import numpy as np
+    from .. import gridoracle
+    n = 30
+    data = gridoracle.data_from_tables(gridoracle.int_tables(n, 1, 5, seed + 21, lo=1, hi=40))
+    rs = np.random.RandomState(seed + 59)
+    for t_ in range(ntrees):
+        parent = [-1] + [int(rs.randint(-1, i)) if rs.rand() < 0.7 else -1 for i in range(1, n)]
+        desc = {i: {i} for i in range(n)}
+        for i in reversed(range(n)):
+            if parent[i] >= 0:
+                desc[parent[i]] |= desc[i]
+        key = absstate.canon({"f": [sorted(v) for v in desc.values()], "o": []})
+        sh.ctx = "random forest #%d on %d data points (memo tables past their capacity)" % (t_, n)
+        tree = absstate.build(key, data)
+        tree.data_log_likelihood
+
+
 def key_collisions(ck, n_arrays):
     """Different arguments must not share a memo key: the real key objects of the two convolution memo tables are
     built for n_arrays different likelihood grids (as many as a long run on a large input produces) and compared.  With
@@ -516,6 +537,7 @@ def run(corrupt=None):
         adversarial_alpha(sh, ck.seed, thorough)
         adversarial_mutation(sh, ck.seed)
         edit_histories(sh, ck.seed, thorough)
+        eviction_part(sh, ck.seed, 400 if thorough else 160)
         try:
             library_driving(sh, ck.seed, thorough)
         except Exception as ex:
